@@ -40,6 +40,27 @@ def random_ast(rnd, names, size):
     return ("range", lo, hi, random_ast(rnd, names, size - 1))
 
 
+def ast_weight(ast):
+    """Rough size of the automaton an expression expands to (ranges multiply)."""
+    k = ast[0]
+    if k == "name":
+        return 1
+    if k in ("seq", "choice"):
+        return sum(ast_weight(e) for e in ast[1])
+    if k == "range":
+        lo, hi = ast[1], ast[2]
+        return ast_weight(ast[3]) * max(1, hi if hi != -1 else lo + 1)
+    return ast_weight(ast[1]) + 1
+
+
+def bounded_ast(rnd, names, size, max_weight=60):
+    for _ in range(50):
+        a = random_ast(rnd, names, size)
+        if ast_weight(a) <= max_weight:
+            return a
+    return ("name", names[0])
+
+
 def _split(rnd, total, k):
     total = max(total, k)
     cuts = sorted(rnd.sample(range(1, total), k - 1)) if total > k else list(range(1, k))
